@@ -188,7 +188,8 @@ def run(case: dict, *, count_only: bool = False) -> Obs:
     cli = make_client(
         env,
         password=password,
-        noise_psk=base64.b64encode(KEY).decode() if noise else None,
+        # (psk_text: the configured key string as given, e.g. a malformed one -- the attempt then fails at its second phase)
+        noise_psk=case["psk_text"] if case.get("psk_text") is not None else (base64.b64encode(KEY).decode() if noise else None),
         keepalive=K,
         expected_name=case.get("expected_name"),
         address=addresses[0],
